@@ -1,6 +1,151 @@
-"""C14 beyond MC_Sys: forward references (postponed evaluation), generic specialisations and threads."""
+"""C14 beyond the sequential histories of MC_Sys: thread schedules (TLC-generated, forced; and free-running stress),
+forward references (postponed evaluation) and order of first use across a family."""
 from __future__ import annotations
+
+import sys
+import threading
+
+from harness import behave, core, tlc
+from harness.terms import canon, terms_equal, wire_match
+
+DATES = [["str", "%04d-02-28" % y] for y in (2019, 2020, 2021, 2022, 2023, 2024)]
+TABLE = [(["date", "int", "str"], DATES + [["int", 5], ["str", "t"]])]
+
+
+def _tables(wd, rep, **kw):
+    r = core.run_mc_with_table("MC_Sys", wd, TABLE, cfg=core.cfg_text("MC_Sys.cfg", MaxLen=1, **kw), rep=None, timeout=600)
+    return behave.SysTables(r.printed)
+
+
+def _matches(t, n, direction, d, act):
+    exp = t.calls[(n, direction, d)]
+    return wire_match(canon(exp), act) if direction == "to" else terms_equal(exp, act)
+
+
+def forced_schedules(rep, tier, wd):
+    from harness import sched
+    r = tlc.run_tlc("MC_Threads", workdir=wd, workers=8, timeout=900,
+                    cfg_text=core.cfg_text("MC_Threads.cfg", Thr="{1, 2, 3}" if tier != "quick" else "{1, 2, 3}"))
+    rep.add_tlc(r, "MC_Threads: Faithful, NoStubToStub over all interleavings of 3 threads making the first call; every complete schedule exported")
+    if r.violated:
+        raise tlc.MachineryError(f"Threads.tla violated: {r.violated}")
+    try:
+        rd = tlc.run_tlc("MC_Threads", workdir=wd, workers=4, timeout=300, cfg_text=core.cfg_text("MC_Threads.cfg", Install='"delete-then-set"'))
+        rep.selftests["delete_then_set_refuted_by_TLC"] = "Faithful" in rd.violated
+    except tlc.MachineryError as e:
+        rep.selftests["delete_then_set_refuted_by_TLC"] = "Faithful" in str(e)
+    schedules = [p[1] for p in r.printed if p[0] == "schedule"]
+    if tier == "quick":
+        schedules = schedules[::3]
+    t = _tables(wd, rep, LazyC=True, LazyInner=True)
+    plans = [("to", "none"), ("from", "none"), ("to", "D1")]
+    n = desync = 0
+    for si, s in enumerate(schedules):
+        direction, d = plans[si % len(plans)]
+        w = behave.World(t)
+        try:
+            w.define("C")
+            jobs = {tid: (lambda: w.call("C", direction, d)) for tid in (1, 2, 3)}
+            results, ds = sched.run_schedule(s, jobs)
+            desync += ds
+            n += 1
+            for tid, (kind, val) in results.items():
+                if kind != "ok" or not _matches(t, "C", direction, d, val):
+                    rep.violation("thread-schedule", {"schedule": s, "thread": tid, "call": ["C", direction, d], "expected": t.calls[("C", direction, d)],
+                                                      "actual": val, "replay_module": "harness.checks.c14_extra"})
+                    break
+        finally:
+            w.close()
+    rep.count(n)
+    rep.cov["traces_validated_against_impl"] += n
+    rep.notes.append(f"forced schedules replayed: {n}; points at which the real run had fewer segments than the model (drift, not a verdict): {desync}")
+    if schedules:
+        rep.sample({"forced_schedule": schedules[0], "threads": 3, "call": "first to_dict()/from_dict() of a lazily compiled family"})
+
+
+def stress(rep, tier, seed, wd):
+    """free-running threads with a tiny switch interval; every thread's first call must give the eager outcome"""
+    t = _tables(wd, rep, LazyC=True, LazyInner=True)
+    old = sys.getswitchinterval()
+    sys.setswitchinterval(1e-6)
+    n = 0
+    try:
+        for rnd in range(60 if tier == "quick" else 600):
+            w = behave.World(t)
+            try:
+                w.define("C")
+                w.define("S")
+                plan = [("C", "to", "none"), ("S", "from", "none"), ("C", "from", "D1"), ("S", "to", "D2")]
+                out = {}
+                barrier = threading.Barrier(len(plan))
+
+                def body(i, call):
+                    barrier.wait()
+                    try:
+                        out[i] = ("ok", w.call(*call))
+                    except Exception as e:  # noqa: BLE001
+                        out[i] = ("exc", f"{type(e).__name__}: {e}"[:200])
+                ths = [threading.Thread(target=body, args=(i, c)) for i, c in enumerate(plan)]
+                for th in ths:
+                    th.start()
+                for th in ths:
+                    th.join(timeout=30)
+                n += 1
+                for i, call in enumerate(plan):
+                    kind, val = out.get(i, ("exc", "thread did not finish"))
+                    if kind != "ok" or not _matches(t, call[0], call[1], call[2], val):
+                        rep.violation("thread-stress", {"call": list(call), "expected": t.calls[tuple(call)], "actual": val, "round": rnd,
+                                                        "replay_module": "harness.checks.c14_extra"})
+                        return
+            finally:
+                w.close()
+    finally:
+        sys.setswitchinterval(old)
+        rep.count(n)
+        rep.cov["traces_validated_against_impl"] += n
+
+
+def forward_refs(rep, tier):
+    """postponed evaluation: A refers to B before B exists; every order of first use after B is defined gives the eager result"""
+    import itertools
+    from harness.checks import c14_subjects
+    n = 0
+    for order in itertools.permutations(["A.to", "A.from", "B.to", "B.from"]):
+        res = c14_subjects.run_forward_family(order)
+        n += 1
+        if res is not None:
+            rep.violation("postponed-evaluation", {"order": list(order), "actual": res, "expected": "same as the eager twin", "replay_module": "harness.checks.c14_extra"})
+    for order in itertools.permutations(["int.to", "str.to", "int.from", "str.from"]):
+        res = c14_subjects.run_generic_family(order)
+        n += 1
+        if res is not None:
+            rep.violation("generic-specialisation-order", {"order": list(order), "actual": res, "expected": "same as a fresh family", "replay_module": "harness.checks.c14_extra"})
+    rep.count(n)
+    rep.cov["traces_validated_against_impl"] += n
 
 
 def run(rep, tier, seed):
+    wd = tlc.scratch()
+    forced_schedules(rep, tier, wd)
+    stress(rep, tier, seed, wd)
+    forward_refs(rep, tier)
+
+
+def replay(rec, path):
+    from harness.report import Report
+    rep = Report("C14", "quick", 1)
+    rep.known = []
+    wd = tlc.scratch()
+    if rec["clause"] == "thread-schedule":
+        forced_schedules(rep, "thorough", wd)
+    elif rec["clause"] == "thread-stress":
+        stress(rep, "thorough", 1, wd)
+    else:
+        forward_refs(rep, "thorough")
+    hit = [v for v in rep.violations if v["clause"] == rec["clause"]]
+    if hit:
+        print("observed now:", str(hit[0]["actual"])[:300])
+        print(f"VIOLATION property=C14 replay={path}")
+        return 1
+    print("no longer reproduces on the current tree")
     return 0
